@@ -67,10 +67,20 @@ def _leaf_one(chk, func, clsname, pi, path, out, writes, cur):
     val, O = cur["val"], cur["O"]
     nm = "result-has-exactly-the-wire-class"
     chk.add(Ob(func, "input-is-not-written", pid, hy, z3.BoolVal(not [w for w in writes if w[0] != "attr" or True and False])))
+    # the attribute-reading routines accept by class: an object that merely has a `value` / `pattern` attribute (a structured
+    # member of the same union, say) is rejected with ValueError, never emitted (fix 979e121)
+    import re as _re
+    target = {"EnumMarshaller": O, "PatternMarshaller": cls_const(_re.Pattern)}.get(clsname)
+    nm2 = "a-value-that-is-not-an-instance-of-the-target-is-rejected-with-ValueError"
     if out.kind != "ret":
-        ok = out.kind == "raise" and not isinstance(out.exc.exc_cls, type)   # only the callee may raise
+        rejected = (target is not None and out.kind == "raise" and out.exc.exc_cls is ValueError)
+        ok = out.kind == "raise" and (not isinstance(out.exc.exc_cls, type) or rejected)   # only the callee may raise
         chk.add(Ob(func, nm, pid, hy, z3.BoolVal(bool(ok)), {"outcome": out.kind}))
+        if target is not None:
+            chk.add(Ob(func, nm2, pid, hy, z3.Not(sub(cls_of(val), target)) if rejected else z3.BoolVal(bool(ok)), {"outcome": out.kind}))
         return
+    if target is not None:
+        chk.add(Ob(func, nm2, pid, hy, sub(cls_of(val), target)))
     r = to_val(out.value)
     goal = {
         "NoOpMarshaller": r == val,
